@@ -290,6 +290,8 @@ def gen_unsolicited(tier, seed):
 def suites(tier, seed):
     import apigen
     return [
+        Suite("exception-texts", "machine", lambda: __import__("props.c07", fromlist=["x"]).gen_exc_text(tier, seed), monitor=__import__("props.c07", fromlist=["x"]).monitor, nontrivial=lambda c, il: True, canon=mg.canon_nondet, candidate_ok=mg.candidate_ok,
+              rule="client exceptions with long non-ASCII texts: the I/O thread does not panic, the loop ends in ClientException (the root cause Connection::close reports)"),
         Suite("silence-in-loop", "machine", lambda: __import__("hbgen").blocked_then_silent_cases(Rng(seed + 55)) + [__import__("hbgen").session(Rng(seed * 7 + i), "s%d" % i, force_close=[None, "client", "server"][i % 3], h_choices=(400, 300), steps=(4, 7)) for i in range(9 if tier == "quick" else 90)],
               monitor=__import__("props.c17", fromlist=["x"]).loop_monitor, nontrivial=lambda c, il: True, canon=__import__("hbgen").canon, shards=16, shrink=False, timeout=300,
               rule="with heartbeats a silent peer is always noticed: the REAL I/O loop with its real timers on a case clock - Connection.Blocked and then silence, silence while the client's close is under way, silence after a server close - ends with MissedServerHeartbeats 2h after the last inbound byte (exact diff against the Lean ConnHb model; the dead state then releases everybody: Props/C05)"),
